@@ -26,7 +26,7 @@ def states(rebound):
     def S(label, f, reattach=None, can_step=True):
         out.append((label, f, reattach, can_step))
     # LIBRARY DEFECT (reported, /tmp/c08_empty_sim_patch.diff): stepping a simulation without particles segfaults with these
-    # integrators, and WHFast/SABA with N_active = 0; such states are saved / restored / compared here but never stepped
+    # integrators (N_active = 0 was fixed in e83f542); such states are saved / restored / compared here but never stepped
     NO_EMPTY_STEP = ("whfast", "saba", "mercurius", "trace")
     for integ in INTEGRATORS:
         for n in (0, 1, 2):
@@ -71,7 +71,7 @@ def states(rebound):
         val("equal-hashes", lambda s: [setattr(p, "hash", 7) for p in s.particles], integ)
         val("e->1", lambda s: s.add(m=1e-6, a=3., e=1. - 1e-12), integ)
         val("inc=pi", lambda s: s.add(m=1e-6, a=3., inc=math.pi), integ)
-        val("N_active=0", lambda s: setattr(s, "N_active", 0), integ, can_step=(integ != "whfast"))
+        val("N_active=0", lambda s: setattr(s, "N_active", 0), integ)
         val("N_active=1+tp_type1", lambda s: (setattr(s, "N_active", 1), setattr(s, "testparticle_type", 1)), integ)
     # integer limits of persisted counters (set through ctypes on a simulation at rest)
     limits = [("steps_done", 2 ** 64 - 1), ("collisions_log_n", 2 ** 63 - 1), ("megno_n", -2 ** 63), ("rand_seed", 2 ** 32 - 1),
